@@ -71,6 +71,9 @@ Step(e) ==
                    ELSE (IF e.poll_nil THEN {} ELSE {Dev("C06.inert", "poll_not_nil", state)})
                         \cup (IF e.chan_closed THEN {} ELSE {Dev("C06.inert", "channel_not_closed", state)})
                         \cup {Dev("C06.inert", "panic", <<e.panics[i], state>>) : i \in 1..Len(e.panics)})
+             \cup (IF "fwd" \notin DOMAIN e THEN {}
+                   ELSE (IF e.fwd.closed /\ e.fwd.returned THEN {} ELSE {Dev("C06.inert", "forwarder_not_closed_at_fini", <<state, e.fwd>>)})
+                        \cup (IF e.fwd.stale = 0 THEN {} ELSE {Dev("C06.inert", "events_forwarded_after_fini", <<state, e.fwd>>)}))
              \cup (IF "loops_left" \in DOMAIN e /\ e.loops_left # 0 THEN {Dev("C06.goroutines", "loops_still_running", state)} ELSE {})
              \cup (IF "resumed_input" \in DOMAIN e /\ ~e.resumed_input THEN {Dev("C06.resume", "input_not_delivered", state)} ELSE {})
              \cup (IF "resumed_resize" \in DOMAIN e /\ ~e.resumed_resize THEN {Dev("C06.resume", "resize_not_delivered", state)} ELSE {})>>
